@@ -148,6 +148,21 @@ Proof.
   apply Nat.ltb_lt in L, L1, L2. now rewrite L, L1, L2.
 Qed.
 
+Lemma lookup_loc_In {A} l (m : list (loc * A)) a : lookup_loc l m = Some a -> In (l, a) m.
+Proof.
+  induction m as [|[l' a'] r IH]; cbn; [discriminate|].
+  destruct (Nat.eqb l l') eqn:E.
+  - apply Nat.eqb_eq in E. subst. intros H. inversion H. auto.
+  - auto.
+Qed.
+
+(** in a well-formed heap every allocated Config is complete *)
+Lemma heap_wf_cfg_ok h c r : heap_wf h = true -> lookup_loc c (h_cfgs h) = Some r -> cfg_ok h c = true.
+Proof.
+  unfold heap_wf. intros H E. apply andb_true_iff in H as [H _]. rewrite forallb_forall in H.
+  exact (H (c, r) (lookup_loc_In _ _ _ E)).
+Qed.
+
 Lemma ext_cfg_ok h h' c : cfg_ok h c = true -> ext (h_next h) h h' ->
   cfg_ok h' c = true /\ get_cfg h' c = get_cfg h c /\ snapshot h' c = snapshot h c.
 Proof.
